@@ -280,6 +280,10 @@ pub struct Sc12 {
     /// the stream starts with a valid prologue and one complete well-formed request of
     /// this many bytes (0 = no such prefix: nothing may be mutated at all)
     pub valid_prefix: u32,
+    /// end offset of the first frame that is well-framed but does not decode as a request
+    /// (0 = none): the session ends there, nothing behind it may have any effect
+    #[serde(default)]
+    pub poison: u32,
     pub session: Option<HubSc>,
     pub pipe_cap: u32,
     pub short_read_pct: u32,
@@ -405,10 +409,11 @@ impl Check for C12 {
                 sentinels: false,
                 io_fault: None,
             };
-            return Sc12 { seed: r.next_u64(), mode: 1, stream_hex: String::new(), cut: None, valid_prefix: 0, session: Some(sess), pipe_cap: 65536, short_read_pct: 0 };
+            return Sc12 { seed: r.next_u64(), mode: 1, stream_hex: String::new(), cut: None, valid_prefix: 0, poison: 0, session: Some(sess), pipe_cap: 65536, short_read_pct: 0 };
         }
         let mut stream: Vec<u8> = Vec::new();
         let mut valid_prefix = 0u32;
+        let mut poison = 0u32;
         let kind = r.below(10);
         let magic_ok = kind != 0;
         match kind {
@@ -450,7 +455,36 @@ impl Check for C12 {
             }
             // then hostile material
             for _ in 0..r.urange(1, 3) {
-                match r.below(9) {
+                match r.below(11) {
+                    9 | 10 => {
+                        // a well-framed Put that does not decode (hash of 31 elements, or the hash as a
+                        // CBOR byte string of a wrong length), followed by "content" that is itself a
+                        // complete Delete of the one existing file: the session must END at the frame
+                        // that does not decode — nothing behind it may be executed
+                        let mut body = vec![0xA1, 0x63, b'P', b'u', b't', 0xA4];
+                        body.extend_from_slice(&[0x64, b'p', b'a', b't', b'h', 0x62, b'z', b'z']);
+                        body.extend_from_slice(&[0x68, b'e', b'x', b'p', b'e', b'c', b't', b'e', b'd', 0xF6]);
+                        body.extend_from_slice(&[0x63, b'l', b'e', b'n', 0x18, 0x40]);
+                        body.extend_from_slice(&[0x64, b'h', b'a', b's', b'h']);
+                        if r.coin() {
+                            body.push(0x98);
+                            body.push(31);
+                            body.extend(std::iter::repeat(0x07u8).take(31));
+                        } else {
+                            let n = *r.pick(&[0usize, 31, 31]); // (33 is accepted: serde cuts an over-long sequence to 32)
+                            body.push(0x58);
+                            body.push(n as u8);
+                            body.extend(std::iter::repeat(0x07u8).take(n));
+                        }
+                        stream.extend_from_slice(&(body.len() as u32).to_be_bytes());
+                        stream.extend(body);
+                        if poison == 0 {
+                            poison = stream.len() as u32;
+                        }
+                        stream.extend(frame(&Request::Delete { path: "k1".into(), expected: Some(b3(&init_body(1))) }));
+                        let n = r.urange(0, 40);
+                        stream.extend(r.bytes(n));
+                    }
                     8 => {
                         // a valid Delete of the one existing file inside a frame that announces
                         // surplus bytes: the request is complete only when the WHOLE frame has
@@ -537,6 +571,7 @@ impl Check for C12 {
             stream_hex: hex(&stream),
             cut,
             valid_prefix,
+            poison,
             session: None,
             pipe_cap: if stream.len() > 1500 { *r.pick(&[4096u32, 65536]) } else { *r.pick(&[1u32, 7, 4096, 65536]) },
             short_read_pct: *r.pick(&[0u32, 30, 80]),
@@ -659,6 +694,21 @@ impl Check for C12 {
         rep.steps = run.out.stats.steps;
         rep.shape = fnv(&[fnv_bytes(&bytes), cut as u64]);
         rep.fault("input_cut", u64::from(sc.cut.is_some()));
+        // a well-framed frame that does not decode ends the session: whatever follows it in the
+        // stream must have no effect — the served tree must end up exactly as when the input is
+        // closed right behind that frame (differential; the server reads ahead, so "bytes read"
+        // cannot attribute an effect to a request)
+        if sc.poison > 0 && cut as u32 > sc.poison {
+            let mut ctl = sess.clone();
+            ctl.clients[0].reqs = vec![Req::Raw { hex: hex(&bytes[..sc.poison as usize]), expect_replies: 0 }, Req::CloseInput];
+            let crun = run_hub(&ctl, None);
+            rep.execs += 1;
+            rep.fault("undecodable_frame_followed_by_more_input", 1);
+            if visible_tree(&run.out.world) != visible_tree(&crun.out.world) {
+                rep.fail("c12.no_effect_after_undecodable_frame", "request-executed-after-undecodable-frame", format!("the frame ending at byte {} does not decode as a request: the session has to end there, but the bytes behind it changed the served tree ({:?} vs {:?})", sc.poison, visible_tree(&run.out.world).keys().collect::<Vec<_>>(), visible_tree(&crun.out.world).keys().collect::<Vec<_>>()));
+                return rep;
+            }
+        }
         let srv = &run.out.procs[0];
         // (a) never panics / aborts
         if let ExitKind::Aborted(m) = &srv.exit {
